@@ -154,7 +154,9 @@ impl<'a, 'tcx> Ser<'a, 'tcx> {
                 ProjectionElem::Field(f, _) => {
                     // field name if ADT
                     let mut name = String::new();
+                    let mut owner = String::new();
                     if let ty::Adt(adt, _) = pty.ty.kind() {
+                        owner = defpath(self.tcx, adt.did());
                         let v = match pty.variant_index {
                             Some(v) => Some(v),
                             None => {
@@ -171,7 +173,7 @@ impl<'a, 'tcx> Ser<'a, 'tcx> {
                             }
                         }
                     }
-                    let _ = write!(s, "{}", esc(&format!(".{}:{}", f.as_usize(), name)));
+                    let _ = write!(s, "{}", esc(&format!(".{}:{}@{}", f.as_usize(), name, owner)));
                 }
                 ProjectionElem::Downcast(name, v) => {
                     let n = match name {
